@@ -271,13 +271,20 @@ def build_desc(case):
 # unicode escapes, braces
 ODD_SIDS = ['pipe 2" /*hot*/', 'http://host/a//b "x" #1', 'back\\slash "q', 'tab\there {0} // end', '\u00e9t\u00e9 "1" /* c */']
 ODD_GIDS = ['herd "A" // north', 'flock /* b */ "', 'x\\"y"//z']
+# identifiers that look like references to the process environment (the variable IS set while decoding): plain text
+ENV_SIDS = ['price_in_$C18VAR', '${C18VAR}/net', '$HOME', '%C18VAR%', '~user']
+ENV_GIDS = ['herd_$C18VAR', '${HOME}']
 
 
 def _sid(case, i):
+    if case.get('odd_ids') == 'env':
+        return ENV_SIDS[i % len(ENV_SIDS)]
     return ODD_SIDS[i % len(ODD_SIDS)] if case.get('odd_ids') else f's{i}'
 
 
 def _gid(case, g):
+    if case.get('odd_ids') == 'env':
+        return ENV_GIDS[g % len(ENV_GIDS)]
     return ODD_GIDS[g % len(ODD_GIDS)] if case.get('odd_ids') else f'g{g}'
 
 
@@ -333,6 +340,7 @@ def _expected_log(case, mid):
 def decode_case(case):
     reset_library()
     POPPING[0] = bool(case.get('popping'))
+    os.environ['C18VAR'] = 'EXPANDED'
     main = sys.modules['__main__']
     me = sys.modules[MOD]
     me.fx_hook = _FX_HOOK_V1
@@ -536,6 +544,7 @@ def cases(tier):
                 out.append(dict(base, hook_kind=hk, module_key=False))
             out.append(dict(base, odd_ids=True))
             out.append(dict(base, odd_ids=True, key_order='sorted'))
+            out.append(dict(base, odd_ids='env'))
             out.append(dict(base, late_model=True))
             out.append(dict(base, late_model=True, hooks={'pre_model': True}))
     # a large description: 60 systems, a group of 1100 agents between an empty group and a small one
